@@ -339,6 +339,11 @@ func genPin(r *fw.Rand, c int, vseq string, npeers int) *api.Pin {
 	p.Metadata["vseq"] = vseq
 	p.Name = vseq
 	p.UserAllocations = nil
+	// a quarter of the pins carry an expiry that has long passed (fixed instants in 2017):
+	// committed state changes through committed entries only, never because time went by
+	if r.Chance(1, 4) {
+		p.ExpireAt = time.Unix(1500000000+int64(r.Intn(1000000)), 0)
+	}
 	return p
 }
 
